@@ -94,6 +94,8 @@ def run_one(name, props, tier):
             am = anchors()
             files = set(meta['files'])
             plist = sorted({meta['written_against']} | {p for p, fs in am.items() if fs & files})
+        elif props == ['target']:
+            plist = [meta['written_against']]
         elif props == ['all']:
             plist = ALL
         else:
